@@ -21,6 +21,23 @@ Theorem C07_compact_facts : forall v : N,
 Proof. exact compact_facts. Qed.
 Print Assumptions C07_compact_facts.
 
+(* ---- Python's int(a / b) as modelled by div_round53, and the retarget rule ---- *)
+(* an integer quotient with at most 53 significant bits is returned exactly (no float error) *)
+Theorem C07_div_exact : forall b k : N,
+  (0 < b)%N -> (k mod 2 ^ (N.log2 k - 52) = 0)%N -> div_round53 (b * k) b = k.
+Proof. exact div_round53_exact. Qed.
+Print Assumptions C07_div_exact.
+
+(* blocks exactly on schedule (150 s apart) leave the target exactly as the previous bits encode it,
+   capped by max_target: the float division introduces no drift *)
+Theorem C07_retarget_on_schedule : forall (mt : N) (pp : option bytes) (cur : bytes),
+  let prev := match pp with Some x => x | None => cur end in
+  (Z.of_N (h_time cur) - Z.of_N (h_time prev) = 150)%Z ->
+  (from_compact (h_bits cur) * 150 < 2 ^ 256)%N ->
+  next_target mt pp (Some cur) = N.min mt (from_compact (h_bits cur)).
+Proof. exact retarget_on_schedule. Qed.
+Print Assumptions C07_retarget_on_schedule.
+
 (* ---- 112-byte header <-> record ---- *)
 Theorem C07_header_codec_bytes : forall r : bytes, length r = HS ->
   exists h, deserialize r = Some h /\ serialize h = Some r.
@@ -70,6 +87,18 @@ Theorem C07_connect_all_or_nothing :
 Proof. exact connect_all_or_nothing. Qed.
 Print Assumptions C07_connect_all_or_nothing.
 
+(* whatever is accepted is valid: if the chain below `start` obeys the rules, an accepted batch makes the
+   stored chain exactly "chain below start ++ batch", and that chain obeys the rules (so a batch containing a
+   header that breaks a rule is never accepted, and by all-or-nothing none of it is stored) *)
+Theorem C07_connect_accepted_valid :
+  forall (sha256 sha512 rmd160 : bytes -> bytes) c s start batch s' n,
+  wf s -> connect sha256 sha512 rmd160 c s start batch = (s', COk (S n)) ->
+  chain_rules sha256 sha512 rmd160 c (chunks start (io s)) ->
+  chain_rules sha256 sha512 rmd160 c (stored_chain s') /\
+  stored_chain s' = chunks start (io s) ++ chunks (S n) batch.
+Proof. exact connect_accepted_valid. Qed.
+Print Assumptions C07_connect_accepted_valid.
+
 (* a fully valid batch that extends the chain is stored whole *)
 Theorem C07_connect_valid_accepted :
   forall (sha256 sha512 rmd160 : bytes -> bytes) c s start batch n,
@@ -90,6 +119,13 @@ Theorem C07_split_batches :
 Proof. exact split_batches. Qed.
 Print Assumptions C07_split_batches.
 
+(* the target never exceeds max_target; for a 256-bit max_target the asserts of _calculate_compact cannot
+   fire during validation and the expected bits fit 32 bits *)
+Theorem C07_validation_never_asserts : forall (mt : N) (pp p : option bytes), (mt < 2 ^ 256)%N ->
+  compact_asserts (next_target mt pp p) = true /\ (compact (next_target mt pp p) < 2 ^ 32)%N.
+Proof. exact validation_never_asserts. Qed.
+Print Assumptions C07_validation_never_asserts.
+
 (* ---- checkpointed chunks ---- *)
 (* a fetched chunk changes the state only if its double SHA-256 is the built-in checkpoint of its chunk *)
 Theorem C07_checkpoint_only :
@@ -107,6 +143,27 @@ Theorem C07_checkpoint_only_on_demand :
   s' <> s -> lookup (chunk_start height) (checkpoints c) = Some (dsha sha256 chunk).
 Proof. exact ensure_chunk_only. Qed.
 Print Assumptions C07_checkpoint_only_on_demand.
+
+(* get() / hash() / get_raw_header() while a chunk getter is installed: whatever the server answers, the
+   state changes only by storing a chunk whose hash is the built-in checkpoint of that 1000-block range; a
+   range without a checkpoint is never written by a lookup *)
+Theorem C07_lookup_checkpoint_only :
+  forall (sha256 : bytes -> bytes) c s height chunk s' r l,
+  lookup_header sha256 c s height chunk = (s', r, l) ->
+  s' <> s -> lookup (chunk_start height) (checkpoints c) = Some (dsha sha256 chunk).
+Proof. exact lookup_only. Qed.
+Print Assumptions C07_lookup_checkpoint_only.
+
+(* the chain invariant for histories that mix connect calls with lookups (any height, any server answer)
+   in ranges that have no checkpoint: the stored chain keeps obeying the rules *)
+Theorem C07_chain_invariant_with_lookups :
+  forall (sha256 sha512 rmd160 : bytes -> bytes) (c : cfg) (ops : list hop) (s : st),
+  lookups_uncheckpointed c ops ->
+  wf s -> chain_rules sha256 sha512 rmd160 c (stored_chain s) ->
+  let s' := fold_left (hstep sha256 sha512 rmd160 c) ops s in
+  wf s' /\ chain_rules sha256 sha512 rmd160 c (stored_chain s').
+Proof. exact chain_invariant_lookups. Qed.
+Print Assumptions C07_chain_invariant_with_lookups.
 
 (* ---- restart ---- *)
 (* open() on ANY file content: what is loaded is a byte prefix of the file (the whole file, or a whole
@@ -152,6 +209,20 @@ Theorem C07_open_after_damage :
 Proof. exact open_drops_from_first_break. Qed.
 Print Assumptions C07_open_after_damage.
 
+(* the property's own phrase: ONE stored header above the start of the check overwritten so that the damage
+   shows in a prev-hash link -- the loaded chain is the undamaged prefix cut one before the damaged header
+   or exactly at it *)
+Theorem C07_open_after_single_damage :
+  forall (sha256 : bytes -> bytes) (c : cfg) (hs : list bytes) (d : nat) (x' : bytes),
+  Forall (fun x : bytes => length x = HS) hs -> linked sha256 hs -> length x' = HS ->
+  repair_start c < d -> d < length hs ->
+  ((forall p, nth_error hs (d - 1) = Some p -> h_prev x' <> dsha sha256 p)
+   \/ (exists y, nth_error hs (S d) = Some y /\ h_prev y <> dsha sha256 x')) ->
+  let s := load_repair sha256 c (concat (replace_nth d x' hs)) in
+  (hsize s = d - 1 \/ hsize s = d) /\ io s = firstn (HS * hsize s) (concat hs).
+Proof. exact open_after_single_damage. Qed.
+Print Assumptions C07_open_after_single_damage.
+
 (* a linked stored chain cut at ANY byte offset m: exactly the m/112 whole headers are loaded -- only
    the partial header is lost *)
 Theorem C07_open_after_cut :
@@ -162,6 +233,19 @@ Theorem C07_open_after_cut :
   load_repair sha256 c (firstn m (concat hs)) = mkSt (firstn m (concat hs)) (m / HS) [].
 Proof. exact open_after_cut. Qed.
 Print Assumptions C07_open_after_cut.
+
+(* connect invariant and restart together: a stored chain that obeys the rules, cut at any byte by a crash,
+   is loaded as its m/112 whole headers, and these still obey all the rules *)
+Theorem C07_restart_after_cut_keeps_rules :
+  forall (sha256 sha512 rmd160 : bytes -> bytes) (c : cfg) (hs : list bytes) (m : nat) (g : bytes),
+  genesis c = Some g ->
+  Forall (fun x : bytes => length x = HS) hs -> chain_rules sha256 sha512 rmd160 c hs ->
+  m <= length (concat hs) ->
+  let s := load_repair sha256 c (firstn m (concat hs)) in
+  hsize s = m / HS /\ io s = firstn m (concat hs) /\
+  stored_chain s = firstn (m / HS) hs /\ chain_rules sha256 sha512 rmd160 c (stored_chain s).
+Proof. exact restart_after_cut_keeps_rules. Qed.
+Print Assumptions C07_restart_after_cut_keeps_rules.
 
 (* ---- the two repaired defects, machine-checked on models of the OLD code ---- *)
 (* before 64a9e0b: a fork shorter than the old tail, then the old chain's continuation at len(headers):
